@@ -236,8 +236,33 @@ func production(c caseCfg, dir string, op *recOpener) (*router.Connector, error)
 	return dp, nil
 }
 
+// hopBeforeInternal reports whether the order adds the sibling link before the internal interface.
+// Without SO_REUSEPORT-like socket sharing (ConnOpener.UDPCanReuseLocal() == false) the udpip
+// provider requires the internal link first (it panics otherwise: an API precondition, outside
+// the properties), so such orders are only run with a reusing opener.
+func hopBeforeInternal(order []string) bool {
+	for _, s := range order {
+		if s == "internal" {
+			return false
+		}
+		if s == "hop" {
+			return true
+		}
+	}
+	return false
+}
+
 // direct applies the same configuration calls ConfigDataplane makes, in the given order.
-func direct(c caseCfg, order []string, op *recOpener) (*router.Connector, error) {
+func direct(c caseCfg, order []string, op *recOpener) (dpc *router.Connector, err error) {
+	defer func() {
+		if r := recover(); r != nil {
+			dpc, err = nil, fmt.Errorf("panic: %v", r)
+		}
+	}()
+	return directSteps(c, order, op)
+}
+
+func directSteps(c caseCfg, order []string, op *recOpener) (*router.Connector, error) {
 	ia := addr.MustParseIA(localIA)
 	dp := router.NewConnector(c.routerConfig(), env.Features{})
 	router.VerifCfgUnderlay(dp, "udpip").SetConnOpener(op)
@@ -338,8 +363,11 @@ func runBuf(w *vt.Writer, rng *rand.Rand, orders [][]string, n int) {
 		emit(c, "production", nil, op, err)
 		// the same calls in another order
 		factoryCalls = nil
-		op = &recOpener{reuse: c.reuse}
 		order := orders[rng.Intn(len(orders))]
+		if hopBeforeInternal(order) {
+			c.reuse = true
+		}
+		op = &recOpener{reuse: c.reuse}
 		_, err = direct(c, order, op)
 		emit(c, "direct", order, op, err)
 	}
@@ -617,7 +645,7 @@ func runPort(w *vt.Writer, rng *rand.Rand, orders [][]string, n int) {
 			break
 		}
 		c := ranges[(i+int(vt.Seed()))%len(ranges)]
-		c.batch, c.reuse = 8, i%2 == 0
+		c.batch, c.reuse = 8, i%2 == 0 || hopBeforeInternal(order)
 		op := &recOpener{reuse: c.reuse}
 		dp, err := direct(c, order, op)
 		reset(c, "direct", order, err)
